@@ -88,9 +88,10 @@ type scenario struct {
 	timerArmed chan struct{}
 	armOnce    sync.Once
 
-	chainBid   bool
-	reservedAs mtypes.OrderID // the id the monitor passed to Reserve
-	free       *freeCfg
+	chainBid    bool
+	chainLeased bool
+	reservedAs  mtypes.OrderID // the id the monitor passed to Reserve
+	free        *freeCfg
 
 	bus    pubsub.Bus
 	svc    bidengine.Service
@@ -334,9 +335,14 @@ func (s *scenario) opCall(op string, price int64) answer {
 		}
 	}
 	s.rec(line{"e": "call", "c": callName[op], "ph": "end", "r": a.r, "price": a.p})
-	if (op == "qbid" && a.r == "found") || (op == "bcast" && a.r == "ok") {
+	if (op == "qbid" && a.r == "open") || (op == "bcast" && a.r == "ok") {
 		s.mu.Lock()
 		s.chainBid = true
+		s.mu.Unlock()
+	}
+	if op == "qbid" && (a.r == "active" || a.r == "lost") {
+		s.mu.Lock()
+		s.chainLeased = true // the order's lease exists already
 		s.mu.Unlock()
 	}
 	return a
@@ -390,10 +396,13 @@ func (q *queryClient) Group(ctx context.Context, in *dtypes.QueryGroupRequest, _
 
 func (q *queryClient) Bid(ctx context.Context, in *mtypes.QueryBidRequest, _ ...grpc.CallOption) (*mtypes.QueryBidResponse, error) {
 	a := q.s.opCall("qbid", 0)
-	switch a.r {
-	case "found":
-		return &mtypes.QueryBidResponse{Bid: mtypes.Bid{BidID: in.ID, State: mtypes.BidOpen,
+	// this provider's bid from an earlier session, in one of its chain states
+	states := map[string]mtypes.Bid_State{"open": mtypes.BidOpen, "active": mtypes.BidActive, "lost": mtypes.BidLost, "closed": mtypes.BidClosed}
+	if st, ok := states[a.r]; ok {
+		return &mtypes.QueryBidResponse{Bid: mtypes.Bid{BidID: in.ID, State: st,
 			Price: sdk.NewInt64Coin(denom, MaxPrice)}}, nil
+	}
+	switch a.r {
 	case "notfound":
 		return nil, errors.New("rpc error: code = NotFound desc = bid not found: invalid request")
 	}
